@@ -232,9 +232,12 @@ def _check(pid, tier, verif_seed, repo, nlanes, replay=None, runs=None, wall_cap
             if h.get("trace"):
                 lines.append(h["trace"])
     if det_bad:
-        rc = 3
-        lines.append("HARNESS-ERROR property=%s nondeterministic runs (same seed, different digest): %s" % (
-            pid, [p[0] for p in det_bad][:10]))
+        # two executions of the same seed differ.  On the unchanged tree this never happens (selftest-determinism
+        # fails hard if it does); on a changed tree it means the library reaches for entropy or time through a
+        # door the seams do not cover.  That is not a verdict about the property and not a reason to call the
+        # check broken: it is reported, and replays of such runs may not reproduce.
+        lines.append("NOTE property=%s %d of %d determinism pairs differ (runs %s): the library under test draws on a source of nondeterminism outside the simulator's seams" % (
+            pid, len(det_bad), len(det_pairs), [p[0] for p in det_bad][:10]))
     expected = len(jobs)
     if nres < expected and not state["truncated"] and not state["stopped"]:
         rc = 3
